@@ -367,11 +367,12 @@ theorem fill_rule_previous (s : Series) (a : Int) (n v i : Nat) (hi : i < n) :
 
 /-- `nearest` and `linear` in terms of the two neighbours `p = prevObs`, `q = nextObs` (characterised by the two rules above):
 nearest takes `p` when `i - p ≤ q - i` (ties go back) and the only neighbour at the ends; linear is
-`x_p + (x_q - x_p)·(i - p)/(q - p)` between two neighbours and flat beyond the outer observations -/
+`x_p + (x_q - x_p)·((i - p)/(q - p))` (IEEE operations: NaN for `inf - inf`) between two neighbours and flat beyond the outer observations -/
 theorem fill_rule_nearest_linear (col : List Cell) (i p q : Nat) (hp : prevObs col i = some p) (hq : nextObs col i = some q) :
     fillAt .nearest col i = (if i - p ≤ q - i then colAt col p else colAt col q) ∧
     fillAt .linear col i = (match colAt col p, colAt col q with
-      | some x, some y => some (x + (y - x) * (((i : Rat) - (p : Rat)) / ((q : Rat) - (p : Rat))))
+      | some x, some y =>
+        (y.sub x).bind (fun d => (d.mul (.fin (((i : Rat) - (p : Rat)) / ((q : Rat) - (p : Rat))))).bind (fun e => x.add e))
       | _, _ => none) := by
   constructor
   · simp [fillAt, hp, hq]
@@ -435,11 +436,34 @@ series of 5 periods is the list end, end-2, start — distinct periods, not cons
 example : (⟨.Q, some 8080, 1, [[some 1], [none], [some 3], [none], [some 5]]⟩ : Series).resolveDates (.span none none (-2))
     = .ok [⟨.Q, 8084⟩, ⟨.Q, 8082⟩, ⟨.Q, 8080⟩] ∧ ([8084, 8082, 8080] : List Int).Nodup := by decide
 
+/-! ## 5b''. Only NaN is missing: ±∞ are observed values -/
+
+/-- a row counts as all-missing exactly when every cell is NaN: an infinite value keeps its row (and hence its period) -/
+theorem allNan_iff (r : Row) : allNan r = true ↔ ∀ c ∈ r, c = none := by
+  unfold allNan
+  rw [List.all_eq_true]
+  constructor
+  · intro h c hc; have := h c hc; cases c <;> simp_all
+  · intro h c hc; rw [h c hc]; rfl
+
+/-- a leading row whose only observation is infinite is not trimmed, an all-infinite series is not emptied, and a written
+`inf` reads back as `inf` (all the theorems above are about `Cell = Option Num`, where `none` is NaN only) -/
+example : (⟨.Q, some 8080, 2, [[some .ninf, none], [none, none], [some 1, some .pinf]]⟩ : Series).trim
+      = ⟨.Q, some 8080, 2, [[some .ninf, none], [none, none], [some 1, some .pinf]]⟩ ∧
+    (⟨.Q, some 8080, 1, [[some 1]]⟩ : Series).setData [8083] (.scalar (some .pinf)) [0]
+      = .ok ⟨.Q, some 8080, 1, [[some 1], [none], [none], [some .pinf]]⟩ := by decide
+
+/-- IEEE corner cases of the operators on observed values: `inf - inf` and `0 * inf` are NaN, everything else with an infinite
+operand is infinite -/
+example : BinFn.sub.eval (some .pinf) (some .pinf) = none ∧ BinFn.mul.eval (some 0) (some .ninf) = none ∧
+    BinFn.add.eval (some .pinf) (some 5) = some .pinf ∧ BinFn.mul.eval (some .ninf) (some .ninf) = some .pinf ∧
+    CmpFn.lt.eval (some .ninf) (some 0) = some 1 := by decide
+
 /-! ## 5c. NaN rules of the statistics (what `StatFn.eval` in `stat_pointwise` does with missing cells) -/
 
 /-- the `nan*` statistics are the plain ones over the observed variants of the period -/
 theorem stat_nan_rules (r : List Cell) :
-    StatFn.nansum.eval r = some (sumQ (obsVals r)) ∧ StatFn.nanprod.eval r = some (prodQ (obsVals r)) ∧
+    StatFn.nansum.eval r = sumQ (obsVals r) ∧ StatFn.nanprod.eval r = prodQ (obsVals r) ∧
     StatFn.nanmean.eval r = meanQ (obsVals r) ∧ StatFn.nanmin.eval r = minQ (obsVals r) ∧
     StatFn.nanmax.eval r = maxQ (obsVals r) := ⟨rfl, rfl, rfl, rfl, rfl⟩
 
